@@ -30,7 +30,7 @@ def run(ctx):
     Ds = (1, 2) if q else (1, 2, 3)
     # (a) b=1 (quick) / b=2 (thorough) over whole short runs, base all-F
     base = [job(D, g, cp=cp, seed=s) for D in Ds for g in ("lin", "log", "unb") for cp in (False, True) for s in seeds]
-    st = explore(base, ["ans"], 1 if q else 2, sink, cap=None if q else 25000, name="whole-run/base-F")
+    st = explore(base, ["ans"], 1 if q else 2, sink, cap=None if q else 12000, name="whole-run/base-F")
     # (b) other base policies and the ball constraint, b=0 (quick) / b=1 (thorough)
     base2 = [job(D, g, cons=c, cp=cp, base=b, seed=seeds[0]) for D in Ds for g in ("lin", "log") for c in (None, "ball")
              for cp in (False, True) for b in ("I", "S4", "E3")]
@@ -42,7 +42,7 @@ def run(ctx):
     if q:
         st = explore(win, ["ans"], 2, sink, pos_ok=lambda kind, pos, res: pos < 12, stats=st, name="12-call-window")
     else:
-        st = explore(win, ["ans"], 3, sink, pos_ok=lambda kind, pos, res: pos < 14, stats=st, cap=st["executions"] + 15000, name="14-call-window")
+        st = explore(win, ["ans"], 3, sink, pos_ok=lambda kind, pos, res: pos < 14, stats=st, cap=st["executions"] + 8000, name="14-call-window")
     # (d) budget window: a success at the last call before the budget
     bw = []
     for D in (1, 2):
